@@ -1,5 +1,6 @@
 """Reader for the trace produced by the DREYE_VERIF hooks (dreye/api/_verif.py). Evidence and localisation only:
-no oracle depends on it, except the qualification of violations that coincide with an unconverged, explicitly requested solver."""
+no oracle depends on it, except (i) the qualification of violations that coincide with an unconverged, explicitly requested solver
+(never applied to violations raised with exact=True), (ii) C11's descent clause, (iii) C08's accuracy band for answers of the SCS fallback."""
 from __future__ import annotations
 
 CONVERGED = ("optimal", "optimal_inaccurate")
